@@ -519,9 +519,11 @@ class Interp(object):
                 return SymPos(v.path, 'line')
             if attr == 'col_offset':
                 return SymPos(v.path, 'col')
+            if attr == 'end_lineno':
+                return SymPos(v.path, 'end_line')
+            if attr == 'end_col_offset':
+                return SymPos(v.path, 'end_col')
             if v.cls is None:
-                if attr in ('end_lineno', 'end_col_offset'):
-                    raise Uninterpretable('use of %s' % attr)
                 raise InterpRaise('AttributeError',
                                   'attribute %r read on an arbitrary %s (%s)' % (attr, v.sort, v.path), node)
             if attr in v.fields:
